@@ -75,6 +75,9 @@ pub fn build_parent(r: &Raw14) -> Parent {
     }
     lines.push(Line { text: "w_0: dw 5".into(), kind: LK::Data(Some("w_0".into())) });
     lines.push(Line { text: format!("{}: dw 0x1234", LBL), kind: LK::Data(Some(LBL.into())) });
+    // a data label whose offset does not fit a byte (OFFSET of it in a byte position is a constant out of range)
+    lines.push(Line { text: "big_0: db [300]".into(), kind: LK::Data(Some("big_0".into())) });
+    lines.push(Line { text: "far_0: db 7".into(), kind: LK::Data(Some("far_0".into())) });
     let dead_lines = |v: &mut Vec<Line>| {
         for i in &r.dead {
             v.push(Line { text: ins_text(i, r.upper), kind: LK::Ins(i.clone(), true) });
@@ -265,6 +268,12 @@ pub fn mutants(p: &Parent) -> Vec<Mutant> {
         ("constant-out-of-range", "mov ax, word [bx, -32769]".into()),
         ("constant-out-of-range", "mov al, byte [bp, si, 65536]".into()),
         ("constant-out-of-range", "int 256".into()),
+        ("constant-out-of-range", "mov bl, offset far_0".into()),
+        ("constant-out-of-range", "add al, OFFSET far_0".into()),
+        ("constant-out-of-range", "mov byte [bx], offset far_0".into()),
+        ("constant-out-of-range", "cmp byte d_0, offset far_0".into()),
+        ("constant-out-of-range", "and cl, offset far_0".into()),
+        ("constant-out-of-range", "shl dx, offset far_0".into()),
         ("unsupported-instruction", "in al, 5".into()),
         ("unsupported-instruction", "IN AL, DL".into()),
         ("unsupported-instruction", "out 5, al".into()),
@@ -350,6 +359,27 @@ pub fn mutants(p: &Parent) -> Vec<Mutant> {
         v.push("nop".to_string());
         v.insert(first_code, format!("macro jmx(t) -> {} t <-", ["jmp", "jz", "loop", "jnbe"][k]));
         push("undefined-jump-target-via-macro", format!("macro jmx used with {:?}", uses), v, at + 1);
+    }
+    // one use of a macro whose body holds several jumps, only one of them to an undefined label (all jumps of one use
+    // are recorded at the position of that use)
+    for (k, (body, args)) in [
+        ("jo a jmp b", vec!["nowhere_m", "fwd_ok"]),
+        ("jo a jmp b", vec!["fwd_ok", "nowhere_m"]),
+        ("jc a jz b loop c", vec!["fwd_ok", "nowhere_m", "fwd_ok"]),
+        ("jc a jz b loop c", vec!["nowhere_m", "fwd_ok", "start"]),
+        ("jnz a jmp a jmp b", vec!["fwd_ok", "nowhere_m"]),
+    ]
+    .iter()
+    .enumerate()
+    {
+        let mut v = b.clone();
+        let at = if k % 2 == 0 { p.live_pos } else { n };
+        v.insert(at.min(v.len()), format!("jm{}({})", args.len(), args.join(", ")));
+        v.push("fwd_ok:".to_string());
+        v.push("nop".to_string());
+        let params = ["a", "b", "c"][..args.len()].join(",");
+        v.insert(first_code, format!("macro jm{}({}) -> {} <-", args.len(), params, body));
+        push("undefined-jump-target-via-macro", format!("macro with body '{}' used once with {:?}", body, args), v, at + 1);
     }
     // M11: start
     if let Some((si, _)) = code_labels.iter().find(|(_, n)| n == "start") {
